@@ -1,1 +1,3 @@
 import Props.C15
+import Props.C01
+import Props.C06
